@@ -227,6 +227,25 @@ func (w *respWriter) Write(p []byte) (int, error) {
 		w.failed = true
 		return k, errConnReset
 	}
+	if w.req.SlowReader > 0 && len(p) > 1 {
+		// a slow client drains the response over time: the bytes of p are
+		// taken piece by piece with scheduling points in between, as the
+		// real server's buffered, blocking socket writes do
+		pieces := w.req.SlowReader + 1
+		step := (len(p) + pieces - 1) / pieces
+		for off := 0; off < len(p); off += step {
+			end := off + step
+			if end > len(p) {
+				end = len(p)
+			}
+			if off > 0 {
+				simrt.Point("net.write")
+			}
+			w.body.Write(p[off:end])
+		}
+		w.written += len(p)
+		return len(p), nil
+	}
 	w.body.Write(p)
 	w.written += len(p)
 	return len(p), nil
